@@ -607,8 +607,70 @@ class Inliner:
         return self
 
 
+def coalesce_inlined_results(tree):
+    """`tmp__iK = E; ...; x = tmp__iK` (the result local of an inlined helper copied into the caller's variable as the last thing) is
+    `x = E; ...` with the helper local renamed to x - when x is not touched in between and tmp__iK is not used afterwards."""
+    import re
+    fresh = re.compile(r'__i\d+$')
+    count = 0
+    for f in [n for n in ast.walk(tree) if isinstance(n, (ast.FunctionDef, ast.AsyncFunctionDef))]:
+        changed = True
+        while changed:
+            changed = False
+            order = []
+
+            def visit(n):
+                if isinstance(n, (ast.FunctionDef, ast.AsyncFunctionDef, ast.ClassDef, ast.Lambda)) and n is not f:
+                    return
+                if isinstance(n, ast.Assign):
+                    # value is evaluated before the targets are bound
+                    visit(n.value)
+                    for t in n.targets:
+                        visit(t)
+                    return
+                if isinstance(n, ast.Name):
+                    order.append(n)
+                for ch in ast.iter_child_nodes(n):
+                    visit(ch)
+            for st in f.body:
+                visit(st)
+            pos = {id(n): k for k, n in enumerate(order)}
+            for st in [x for x in ast.walk(f) if isinstance(x, ast.Assign)]:
+                if len(st.targets) == 1 and isinstance(st.targets[0], ast.Name) and isinstance(st.value, ast.Name) and fresh.search(st.value.id) and id(st.value) in pos:
+                    a, b = st.value.id, st.targets[0].id
+                    occ_a = [pos[id(n)] for n in order if n.id == a]
+                    occ_b = [pos[id(n)] for n in order if n.id == b]
+                    k = pos[id(st.value)]
+                    if max(occ_a) != k or any(min(occ_a) <= o < k for o in occ_b):
+                        continue
+                    # the copy must be in the same block as (or an enclosing block of) the first definition: sibling statements
+                    blk = None
+                    for par in ast.walk(f):
+                        for fld in ('body', 'orelse', 'finalbody'):
+                            b_ = getattr(par, fld, None)
+                            if isinstance(b_, list) and any(x is st for x in b_):
+                                blk = b_
+                    if blk is None:
+                        continue
+                    first = order[min(occ_a)]
+                    if not any(any(y is first for y in ast.walk(x)) for x in blk):
+                        continue
+                    for n in order:
+                        if n.id == a:
+                            n.id = b
+                    blk.remove(st)
+                    if not blk:
+                        blk.append(ast.Pass())
+                    count += 1
+                    changed = True
+                    break
+    return count
+
+
 def apply(tree, relpath, loader=None):
     inl = Inliner(tree, relpath, loader).run()
+    if inl.done:
+        coalesce_inlined_results(tree)
     # names of a helper's own module used by its inlined body become synthetic imports of the receiving module
     used = {d[1] for d in inl.done}
     bound = {n.name for n in tree.body if isinstance(n, (ast.FunctionDef, ast.ClassDef))} | \
